@@ -16,6 +16,21 @@ def run(c):
     res, d = c.tool("jsoracle", ["-seed", c.seed + 100, "-tier", c.tier, "-n", n, "-cases", "print"])
     if res is not None:
         c.corr("Js.print (parenthesis decisions of the expression printer over the regenerated precedence maps) vs the token sequence of the real js.Minify on random operator expressions", d)
+        # a disagreement is searched for a failing input: the disagreeing expressions go to the node oracle as programs
+        exs = getattr(c, "corr_examples", None) or []
+        srcp = os.path.join(d, "cases.src")
+        if exs and os.path.exists(srcp):
+            srcs = open(srcp).read().split("\n")
+            for k, exm in enumerate(exs[:5]):
+                ln = exm.get("line", 0) - 1
+                if 0 <= ln < len(srcs) and srcs[ln].strip():
+                    # every identifier gets a value and the result is observed through the host
+                    prog = "var " + ",".join("v%d=%d" % (i, i + 2) for i in range(1, 40)) + ",x0;try{" + srcs[ln] + "}catch(e){h1(String(e))}h0(x0)"
+                    w = os.path.join(c.outdir, "corrwitness%d.json" % k)
+                    json.dump({"input": prog, "options": {"KeepVarNames": "true"}, "strict": False}, open(w, "w"))
+                    c.tool("jsoracle", ["-witness", w], sub="corr-search-%d" % k, count=False)
+                    if c.new_violations:
+                        break
         ex = res.get("extra") or {}
         c.cov["printer_fragment"] = {k: v for k, v in ex.items() if k.startswith("jsprint")}
     c.replay_known(None)
